@@ -278,6 +278,16 @@ def reservedIntermediates (fs : FeeSchedule) (o : Order) (ver : Nat) : List Int 
     [n0 * pm m, n0 * fee1]) ++
   [closedBalanceDelta fs o ver, -closedBalanceDelta fs o ver]
 
+/-- the values the variable `reserved` of `validateOrder` takes, in program order: the new order's reserved value,
+    then one running sum per stored order of the account (orders of other accounts are skipped, a panic ends it) -/
+def runningSums (fs : FeeSchedule) (acct : Account) (acc : Int) : List Order → List Int
+  | [] => []
+  | o :: rest =>
+    if o.acctKey ≠ acct.key then runningSums fs acct acc rest else
+    match orderReservedValue fs o acct.version with
+    | .panic => []
+    | .ok v => (acc + v) :: runningSums fs acct (acc + v) rest
+
 /-! ## the domain in which Go's fixed-width arithmetic agrees with the model -/
 
 /-- largest number of matches the reserve is computed for -/
